@@ -106,6 +106,8 @@ func main() {
 		c10DigestMain(os.Args[2:])
 	case "c11":
 		c11Main(os.Args[2:])
+	case "c11-min":
+		c11MinMain(os.Args[2:])
 	case "c11-replay":
 		c11ReplayMain(os.Args[2:])
 	default:
